@@ -19,7 +19,7 @@ virtual time although they execute one after the other in this OS process.
 import itertools
 
 from . import rngseam
-from .world import HarnessError
+from .world import HarnessError, check_request
 
 REAL_POOL = None
 
@@ -225,6 +225,7 @@ class SimPool:
         if not hasattr(iterable, "__len__"):
             iterable = list(iterable)
         n = len(iterable)
+        check_request(n, "pool map")
         if chunksize is None:
             chunksize, extra = divmod(n, len(self._workers) * 4)
             if extra:
